@@ -100,9 +100,12 @@ class Seq12(Part):
         cases = []
         quick = tier == "quick"
 
-        def add(cls, npids, remote, sym):
-            cases.append({"input": {"kind": "seq", "npids": npids, "remote": remote, "hist": concretise(sym)},
-                          "class": cls})
+        def add(cls, npids, remote, sym, look=False):
+            inp = {"kind": "seq", "npids": npids, "remote": remote, "hist": concretise(sym)}
+            if look:
+                # the foreign twin differs in address and id, but address+id spell the same string
+                inp["look"] = True
+            cases.append({"input": inp, "class": cls})
 
         def words(alpha, maxlen, minlen=1):
             for n in range(minlen, maxlen + 1):
@@ -126,6 +129,7 @@ class Seq12(Part):
         # the same id on this node and behind a foreign address (engine with a remote)
         for w in words([("sub", 0, 0), ("sub", 50, 0), ("unsub", 0, 1), ("unsub", 50, 1), ("ev",)], 4 if quick else 6, 2):
             add("remote5", 1, True, w)
+            add("remote5_lookalike", 1, True, w, look=True)
         if not quick:
             for w in words([("sub", 0, 0), ("sub", 50, 0), ("sub", 51, 0), ("unsub", 0, 1), ("unsub", 50, 1),
                             ("life", 0), ("ev",)], 5, 2):
@@ -145,7 +149,7 @@ class Seq12(Part):
                     hist.append(("life", rng.randrange(3)))
                 else:
                     hist.append(("ev",))
-            add("random", 3, remote, hist)
+            add("random", 3, remote, hist, look=remote and k % 4 == 0)
         return cases
 
     def to_coq(self, inp, obs):
